@@ -3,18 +3,12 @@ Helper lemmas for C06 / C07: propagation, rolling state, the imaginary-time fold
 deciders of `QmcModel/Worldline.lean`, and preservation of `Consistent` / `Legal` by each relation.
 -/
 import QmcModel.Worldline
+import QmcProofs.Common
 
 namespace Qmc
 
-/-! ### writeVars / readVars / inputsMatch -/
-
-theorem writeVars_length (st : List Bool) (vars : List Nat) (vals : List Bool) :
-    (writeVars st vars vals).length = st.length := by
-  unfold writeVars
-  generalize vars.zip vals = z
-  induction z generalizing st with
-  | nil => rfl
-  | cons x t ih => simp [List.foldl_cons, ih]
+/-! ### writeVars / readVars / inputsMatch
+(`writeVars_length`, `readVars_length`, `propagate_length` are in QmcProofs/Common.lean) -/
 
 theorem writeVars_nil_vars (st : List Bool) (vals : List Bool) : writeVars st [] vals = st := by
   simp [writeVars]
@@ -25,9 +19,6 @@ theorem writeVars_nil_vals (st : List Bool) (vars : List Nat) : writeVars st var
 theorem writeVars_cons (st : List Bool) (v : Nat) (vs : List Nat) (x : Bool) (xs : List Bool) :
     writeVars st (v :: vs) (x :: xs) = writeVars (st.set v x) vs xs := by
   simp [writeVars]
-
-theorem readVars_length (st : List Bool) (vars : List Nat) : (readVars st vars).length = vars.length := by
-  simp [readVars]
 
 theorem inputsMatch_nil_vars (st : List Bool) (o : Op) (h : o.vars = []) : inputsMatch st o = true := by
   simp [inputsMatch, h]
@@ -115,17 +106,6 @@ theorem propagate_some_of {st : List Bool} {o : Op} {t : Slots}
     (hm : inputsMatch st o = true) :
     propagate st (some o :: t) = propagate (writeVars st o.vars o.outs) t := by
   simp [propagate, applyOp_of_match hm]
-
-theorem propagate_length {st : List Bool} {s : Slots} {r : List Bool} (h : propagate st s = some r) :
-    r.length = st.length := by
-  induction s generalizing st with
-  | nil => simp [propagate] at h; subst h; rfl
-  | cons x t ih =>
-    cases x with
-    | none => exact ih (by simpa [propagate] using h)
-    | some o =>
-      obtain ⟨_, h2⟩ := propagate_some_eq h
-      rw [ih h2, writeVars_length]
 
 theorem propagate_append_none (st : List Bool) (s : Slots) (k : Nat) :
     propagate st (s ++ List.replicate k none) = propagate st s := by
@@ -514,6 +494,10 @@ theorem diagSweep_pres_aux (H : Ham) (n L : Nat) (hH : HamWF H n) (b a : Config)
 
 /-! ### xor lemma: link-closed flips keep consistency -/
 
+/-- `xorB` (QmcModel/Common.lean, used by the shared `maskOp` / `maskSlots`) is `xorBits`: `xor` is an
+abbreviation of `bne` -/
+theorem xorB_eq_xorBits (a b : List Bool) : xorB a b = xorBits a b := rfl
+
 theorem xorBits_length (a b : List Bool) : (xorBits a b).length = min a.length b.length := by
   simp [xorBits]
 
@@ -644,7 +628,7 @@ theorem xorRel_of_sameSkeleton {b a : Slots} (h : SameSkeleton b a) : XorRel b (
     refine XorRel.some o (maskOp o o') o' rfl hv ?_ ?_ ?_ ih
     · exact (xorBits_cancel o.ins o'.ins hi).symm
     · exact (xorBits_cancel o.outs o'.outs ho).symm
-    · simp [maskOp, xorBits_length, ho]
+    · simp [maskOp, xorB_eq_xorBits, xorBits_length, ho]
 
 /-- **Link-closed flips keep consistency** (shared by cluster / loop / free refresh / RVB spin
 part): on a common skeleton, if the flip mask is a consistent mask configuration then the flipped
